@@ -151,11 +151,16 @@ def run(ctx):
     bad = []
     for z, (name, sym, ions, uions) in base.items():
         e = sub(T, z)
-        routes = {"attribute": I.getattr(T, sym), "symbol()": call(T, "symbol", sym), "name()": call(T, "name", name.lower()),
-                  "isotope()": call(T, "isotope", sym)}
-        for r, obj in routes.items():
+        routes = {"attribute": lambda: I.getattr(T, sym), "symbol()": lambda: call(T, "symbol", sym), "name()": lambda: call(T, "name", name.lower()),
+                  "isotope()": lambda: call(T, "isotope", sym)}
+        for r, get in routes.items():
+            try:
+                obj = get()
+            except SymRaise as exc_:
+                bad.append((z, sym, r, f"raises {exc_.exc}"))     # a key of the table that a route refuses
+                continue
             if obj is not e:
-                bad.append((z, r))
+                bad.append((z, sym, r))
         h = heap(e)
         if h.get("number") != z or h.get("symbol") != sym or h.get("name") != name.lower() or h.get("ions") != tuple(sorted(ions + uions)):
             bad.append((z, "fields"))
@@ -220,7 +225,13 @@ def run(ctx):
               ("table[200]", lambda: sub(T, 200), "KeyError"), ("table[-1]", lambda: sub(T, -1), "KeyError"), ("table[119]", lambda: sub(T, 119), "KeyError"),
               ("Fe[999]", lambda: sub(Fe, 999), "KeyError"), ("Fe[55]", lambda: sub(Fe, 55), "KeyError"),
               ("Fe.ion[99]", lambda: sub(I.getattr(Fe, "ion"), 99), "ValueError"), ("Fe[56].ion[9]", lambda: sub(I.getattr(fe56, "ion"), 9), "ValueError"),
-              ("Ne.ion[1]", lambda: sub(I.getattr(I.getattr(T, "Ne"), "ion"), 1), "ValueError")]
+              ("Ne.ion[1]", lambda: sub(I.getattr(I.getattr(T, "Ne"), "ion"), 1), "ValueError"),
+              # keys that are not whole numbers name no atom (nothing is rounded or converted to reach one)
+              ("table[0.5]", lambda: sub(T, sp.Rational(1, 2)), "KeyError"), ("table[26.5]", lambda: sub(T, sp.Rational(53, 2)), "KeyError"),
+              ("table['26']", lambda: sub(T, "26"), "KeyError"), ("Fe[56.9]", lambda: sub(Fe, sp.Rational(569, 10)), "KeyError"),
+              ("Fe['56']", lambda: sub(Fe, "56"), "KeyError"),
+              ("Fe.ion[2.5]", lambda: sub(I.getattr(Fe, "ion"), sp.Rational(5, 2)), "ValueError"),
+              ("Fe.ion['2']", lambda: sub(I.getattr(Fe, "ion"), "2"), "ValueError")]
     for label, fn, exc in probes:
         if exc is None:
             continue
@@ -311,6 +322,25 @@ def run(ctx):
                     ctx.fail("R2", f"table '{tname}' {route} for {sym}", f"serves an object of table '{I.getattr(obj, 'table')}'", s_pt)
     ctx.ok("R2", "with two tables alive, name(), symbol() and [Z] of each table serve its own elements", site=s_pt,
            sample={"elements sampled": len(list(base)[::7])})
+    # the string route, asked of both tables in both orders (a lookup remembered by one table must not answer for the other)
+    for A_ in (54, 56):
+        call(I.getattr(T2, "Fe"), "add_isotope", sp.Integer(A_))
+    for text, want in (("56-Fe", lambda tab: sub(I.getattr(tab, "Fe"), 56)), ("Fe", lambda tab: I.getattr(tab, "Fe")),
+                       ("D", lambda tab: sub(I.getattr(tab, "H"), 2)), ("2-H", lambda tab: sub(I.getattr(tab, "H"), 2)),
+                       ("n", lambda tab: sub(tab, 0)), ("54-Fe", lambda tab: sub(I.getattr(tab, "Fe"), 54))):
+        for first, second in (((T, "verif"), (T2, "other")), ((T2, "other"), (T, "verif"))):
+            for rep in (1, 2):
+                for tab, tname in (first, second):
+                    rr = raises(lambda: call(tab, "isotope", text))
+                    if rr is not None:
+                        ctx.fail("R2", f"table '{tname}' isotope('{text}') with two tables alive", f"raises {rr}", s_pt)
+                        continue
+                    obj = call(tab, "isotope", text)
+                    if not isinstance(obj, SymObj) or I.getattr(obj, "table") != tname or obj is not want(tab):
+                        ctx.fail("R2", f"table '{tname}' isotope('{text}') with two tables alive",
+                                 f"serves {ident(obj) if isinstance(obj, SymObj) else obj} of table "
+                                 f"'{I.getattr(obj, 'table') if isinstance(obj, SymObj) else '?'}' (asked after the other table, request {rep})", s_pt)
+    ctx.ok("R2", "with two tables alive, isotope('A-Sym'/'Sym') of each table serves its own atoms, in either order of asking", site=s_pt)
     # define_elements
     ns = {}
     names = I.call(I.global_name("core", "define_elements"), [T, ns], {})
